@@ -16,6 +16,8 @@ CONSTANTS
   Crashes = TRUE
   StartBy = 1
   HealOdds = 3
+  ListLag = FALSE
+  FixSkew = FALSE
 VIEW View
 INVARIANTS TypeOK InvExclusion InvHolderHasFile InvNotStale InvFresh
 CHECK_DEADLOCK FALSE
